@@ -82,10 +82,20 @@ def prepare(job, d):
         with open(ini, "w", encoding="utf-8") as f:
             f.write(job["ini_text"])
     odsio.write_ods(ods, sheets, layout, conc["U"], conc["P"])
+    if job.get("corrupt_input"):
+        with open(ods, "wb") as f:
+            f.write(b"this is not a spreadsheet\n" * 20)
     os.makedirs(outdir, exist_ok=True)
     for name, content in job.get("pre_files", {}).items():
         with open(os.path.join(outdir, name), "w", encoding="utf-8") as f:
             f.write(content)
+    # entries of the output directory that are symbolic links to files kept elsewhere (e.g. an archive of last year's reports)
+    for name, target in job.get("pre_links", {}).items():
+        tpath = os.path.join(d, "archive", target)
+        os.makedirs(os.path.dirname(tpath), exist_ok=True)
+        with open(tpath, "w", encoding="utf-8") as f:
+            f.write("filed last year\n")
+        os.symlink(tpath, os.path.join(outdir, name))
     return ini, ods, outdir, rowmaps
 
 
@@ -154,12 +164,14 @@ def _audit_hook(event, args):
         pass
 
 
-def _classify(path, d):
+def _classify(path, d, follow=True):
+    """where an effect lands: a write follows a symbolic link to its target; removing / renaming acts on the directory entry itself"""
     if isinstance(path, int):
         return "other"
     if isinstance(path, bytes):
         path = path.decode("utf-8", "replace")
-    p = os.path.realpath(os.path.join(d, os.fspath(path)))
+    p = os.path.join(d, os.fspath(path))
+    p = os.path.realpath(p) if follow else os.path.join(os.path.realpath(os.path.dirname(p)), os.path.basename(p))
     d = os.path.realpath(d)
     if p.startswith(os.path.join(d, "out") + os.sep) or p == os.path.join(d, "out"):
         return "out"
@@ -222,7 +234,8 @@ def child_main(job, d, result_path):
             os.environ.setdefault("CURRENCY_CODE", "usd")
             os.environ.setdefault("LONG_TERM_CAPITAL_GAINS", str(job.get("ltcg", 365)))
         sys.argv = build_argv(job, ini, ods, outdir)
-        before = (_sha(ini), _sha(ods)) if os.path.exists(ini) and os.path.exists(ods) else None
+        outside = sorted(os.path.join(d, "archive", t) for t in job.get("pre_links", {}).values())
+        before = (_sha(ini), _sha(ods)) + tuple(_sha(p) for p in outside) if os.path.exists(ini) and os.path.exists(ods) else None
         if job.get("audit"):
             sys.addaudithook(_audit_hook)
             _AUDIT["on"] = True
@@ -246,8 +259,8 @@ def child_main(job, d, result_path):
         if job.get("audit"):
             res["effects"] = [{"k": "read", "loc": "any", "path": f"{_AUDIT['reads']} files opened for reading"}] if _AUDIT["reads"] else []
             for k, p in _AUDIT["events"]:
-                res["effects"].append({"k": k, "loc": _classify(p, d) if k not in ("socket", "process") else "none", "path": str(p)[-120:]})
-            res["inputs_unchanged"] = before is not None and before == (_sha(ini), _sha(ods))
+                res["effects"].append({"k": k, "loc": _classify(p, d, follow=k in ("write", "mkdir")) if k not in ("socket", "process") else "none", "path": str(p)[-120:]})
+            res["inputs_unchanged"] = before is not None and before == (_sha(ini), _sha(ods)) + tuple(_sha(p) if os.path.exists(p) else "" for p in outside)
         res["files"] = sorted(os.listdir(outdir))
         res["odsinfo"] = {f: ods_info(os.path.join(outdir, f)) for f in res["files"] if f.endswith(".ods")}
         if cap.data and cap.data["computed"] is not None and "computed" in job.get("observe", []):
